@@ -204,5 +204,32 @@ pub proof fn lemma_no_roots(a: real, b: real, c: real, tau: real)
     }
 //@end
 
+// ------------------------------------------------------------------ identity scaling of the second-order cone (C11)
+//@include prelude/std_assumed.rs
+//@struct file=src/solver/core/cones/socone.rs name=SecondOrderConeSparseData
+//@struct file=src/solver/core/cones/socone.rs name=SecondOrderCone rules=R2
+pub open spec fn unit_vec(w: Seq<F>, first: F) -> bool {
+    w.len() >= 1 && w[0] == first && forall|i: int| 1 <= i < w.len() ==> #[trigger] w[i] == f_zero()
+}
+impl SecondOrderCone<F> {
+//@fn file=src/solver/core/cones/socone.rs in="Cone<T> for SecondOrderCone<T>" name=set_identity_scaling rules=R1,R2
+//@contract
+    requires old(self).w@.len() >= 1,
+        old(self).sparse_data matches Some(sd) ==> sd.u@.len() >= 1,
+    ensures
+        // W = I:  w = e1, eta = 1
+        final(self).w@.len() == old(self).w@.len(), unit_vec(final(self).w@, f_one()), final(self).eta == f_one(),
+        final(self).dim == old(self).dim, final(self).lambda@ == old(self).lambda@,
+        final(self).sparse_data is Some == old(self).sparse_data is Some,
+        // C11: the sparse expansion written into the KKT matrix is reset to the same operator (H = I):
+        // d = 1/2, u = e1/sqrt(2), v = 0  -- every entry of v, not just the first
+        final(self).sparse_data matches Some(sd) ==> {
+            &&& sd.d == f_lit(0.5)
+            &&& sd.u@.len() == old(self).sparse_data->Some_0.u@.len() && unit_vec(sd.u@, f_frac_1_sqrt_2())
+            &&& sd.v@.len() == old(self).sparse_data->Some_0.v@.len() && forall|i: int| 0 <= i < sd.v@.len() ==> #[trigger] sd.v@[i] == f_zero()
+        },
+//@end
+}
+
 } // verus!
 fn main() {}
